@@ -100,11 +100,13 @@ impl PMarket {
 //@body
 }
 
-/// Carrier for `Self: PositionMut` (state + the market it belongs to)
+/// one call of update_total_borrowing: the size and borrowing factor the position still HELD when it was called, and the ones announced
+pub struct TbUpdate { pub prev_size: N, pub prev_factor: N, pub next_size: N, pub next_factor: N }
+/// Carrier for `Self: PositionMut` (state + the market it belongs to); `tb_log` is a ghost log of the total-borrowing updates
 pub struct Pos {
     pub long: bool, pub collateral_long: bool,
     pub collateral_amount: N, pub size_in_usd: N, pub size_in_tokens: N, pub borrowing_factor: N, pub funding_fee_amount_per_size: N,
-    pub claimable_long: N, pub claimable_short: N, pub mkt: PMarket,
+    pub claimable_long: N, pub claimable_short: N, pub mkt: PMarket, pub tb_log: Ghost<Seq<TbUpdate>>,
 }
 /// wf(position): an empty position has no tokens either (established by initialize_position_if_empty and by every close)
 pub open spec fn pos_wf(p: Pos) -> bool { (p.size_in_usd@ == 0) == (p.size_in_tokens@ == 0) }
@@ -132,7 +134,9 @@ impl Pos {
     /// ASSUMED: update_total_borrowing touches only the total-borrowing pool (C13); the hooks and validations change nothing tracked
     #[verifier::external_body]
     pub fn update_total_borrowing(&mut self, next_size_in_usd: &N, next_borrowing_factor: &N) -> (r: Result<(), E>)
-        ensures final(self).mkt.t == old(self).mkt.t, *final(self) == (Pos { mkt: final(self).mkt, ..*old(self) })
+        ensures final(self).mkt.t == old(self).mkt.t, *final(self) == (Pos { mkt: final(self).mkt, tb_log: final(self).tb_log, ..*old(self) }),
+            r.is_ok() ==> final(self).tb_log@ == old(self).tb_log@.push(TbUpdate { prev_size: old(self).size_in_usd, prev_factor: old(self).borrowing_factor, next_size: *next_size_in_usd, next_factor: *next_borrowing_factor }),
+            r.is_err() ==> final(self).tb_log@ == old(self).tb_log@,
     { unimplemented!() }
     #[verifier::external_body]
     pub fn on_increased(&mut self) -> (r: Result<(), E>) ensures *final(self) == *old(self) { unimplemented!() }
